@@ -14,6 +14,7 @@ import (
 	"fmt"
 	"os"
 	"path/filepath"
+	"runtime/debug"
 	"sort"
 	"strings"
 	"testing"
@@ -30,6 +31,8 @@ const (
 )
 
 func TestMain(m *testing.M) {
+	// every volume load allocates (and zeroes) several MB of needle map / leveldb buffers; collect less often
+	debug.SetGCPercent(400)
 	vlib.Rule("C03: rapid-generated histories (5-25 writes/overwrites/same-content rewrites/deletes over 5 keys, payload lengths 0,1,7,8,9,100 and random <=600, needle map kind memory|leveldb) are run on a clean volume; crash states (datLen, idxEntries) are taken at structured offsets of every record (boundary, +-1, mid-header, header end, mid-body, checksum, timestamp, padding) and random interior offsets, each with the largest admissible index prefix and a drawn shorter one; the EveryByte test enumerates every byte offset x every admissible index prefix of small histories. One evaluation = one crash state loaded, read back, written to, and re-opened. Non-trivial = the crash state tears a record or leaves >=1 complete record without its index entry. Distinct = distinct (history, datLen, idxEntries).")
 	vlib.Assume("Crash model of the property statement: .dat and .idx each keep a prefix (byte-level for .dat, entry-level for .idx); an index entry is never present without its complete data record; the .vif file is intact; the leveldb needle map directory is absent after the crash and rebuilt from the .idx prefix. Torn .idx entries and an index running ahead of the data file are outside the quantifier.")
 	vlib.Assume("Payload bytes are a deterministic function of (key, version), so every version of every key is recognisable; a read counts as wrong if it returns bytes that are neither the durable version nor a later written version of that key.")
@@ -597,10 +600,10 @@ func TestPropCrashSampled(t *testing.T) {
 // index prefix, for small histories.
 func TestPropCrashEveryByte(t *testing.T) {
 	quietGlog()
-	maxOps, maxLen := vlib.Pick(3, 8), vlib.Pick(12, 40)
-	vlib.Check(t, 8, 60, func(t *rapid.T) {
+	maxOps, maxLen := vlib.Pick(5, 8), vlib.Pick(12, 40)
+	vlib.Check(t, 4, 60, func(t *rapid.T) {
 		kind := genKind(t)
-		ops := genOps(t, 2, maxOps, maxLen)
+		ops := genOps(t, 3, maxOps, maxLen)
 		h := runHistory(t, kind, ops)
 		defer os.RemoveAll(h.dir)
 		seq := 0
